@@ -80,7 +80,7 @@ PROPS["C10"] = {
 }
 PROPS["C11"] = {
     "lean": ["PP.Props.C11", "PP.Tie.Reader"],
-    "what": "Streaming progress at library level, over an instrumented copy of the reader and loop proved to erase to the model (fillLoopT_erases ... scanBT_erases): read_only_without_newline (the source is asked for more only when the bytes held contain no complete line), released_before_blocking / complete_lines_released (at every Read every complete line delivered so far has been scanned, and written if it is pass-through: zero look-ahead), returns_at_terminator (no Read after the terminating line was scanned), fill_single_read (fill returns after the first read that yields data or an error); harness: scripted reader/writer recording what the writer holds at every Read and that no Read follows the delivery of the terminating line.",
+    "what": "Streaming progress at library level, over an instrumented copy of the reader and loop proved to erase to the model (fillLoopT_erases ... scanBT_erases): read_only_without_newline (the source is asked for more only when the bytes held contain no complete line), released_before_blocking / complete_lines_released (at every Read every complete line delivered so far has been scanned, and written if it is pass-through: zero look-ahead), returns_at_terminator (no Read after the terminating line was scanned), fill_single_read (fill returns after the first read that yields data or an error); harness: scripted reader/writer recording what the writer holds at every Read and that no Read follows the delivery of the terminating line; correspondence: the instrumented model's Read events (bytes delivered before, bytes returned, bytes written so far) compared with the events observed on the real reader for the same delivery.",
     "partial": "end to end on the pp binary the guarantee also depends on OS pipe buffering and on os.Stdout being unbuffered: runtime facts the model cannot exhibit.",
     "trusted": ["io.Reader contract", "the pass-through writer does not buffer"],
 }
